@@ -644,9 +644,28 @@ def check_line(res, case, artist, spec, origin, kw):
     return True
 
 
-def check_bbox_params(res, case, artist, b):
+_AX = []
+
+
+def _axes():
+    if not _AX:
+        from matplotlib.figure import Figure
+        _AX.append(Figure().add_subplot())
+    return _AX[0]
+
+
+def _plotted(artist):
+    """The artist plot() returned, taken off the shared Axes again (it stays a complete artist)."""
+    try:
+        artist.remove()
+    except Exception:      # noqa: BLE001
+        pass
+    return artist
+
+
+def check_bbox_params(res, case, artist, b, origin=(0.0, 0.0)):
     ixmin, ixmax, iymin, iymax = b
-    want = [ixmin - 0.5, iymin - 0.5, float(ixmax - ixmin), float(iymax - iymin)]
+    want = [ixmin - 0.5 - origin[0], iymin - 0.5 - origin[1], float(ixmax - ixmin), float(iymax - iymin)]
     try:
         got = [float(artist.get_x()), float(artist.get_y()), float(artist.get_width()), float(artist.get_height())]
     except AttributeError:
@@ -679,6 +698,8 @@ def check_call(res, spec, origin, form, visname, vis, kwname, kw, ndir, Q=None):
         from regions import RegionBoundingBox
 
         def make(k):
+            if form == 'plot':
+                return _plotted(RegionBoundingBox(*spec['bbox']).plot(origin=tuple(origin), ax=_axes(), **k))
             return RegionBoundingBox(*spec['bbox']).as_artist(**k)
     else:
         s = dict(spec)
@@ -690,6 +711,8 @@ def check_call(res, spec, origin, form, visname, vis, kwname, kw, ndir, Q=None):
             return
 
         def make(k):
+            if form == 'plot':
+                return _plotted(reg.plot(origin=tuple(origin), ax=_axes(), **k))
             return reg.as_artist(origin=_origin_obj(origin, form), **k)
         # history: on every second case (deterministic) the same region object has already produced an artist
         # with *other* caller keywords; nothing of that earlier call may show in the artist under test
@@ -723,7 +746,7 @@ def check_call(res, spec, origin, form, visname, vis, kwname, kw, ndir, Q=None):
             Q = queries(geo, ndir)
         good, n_in, n_out = check_outline(res, case, artist, geo, origin, Q)
         if kind == 'bbox':
-            good = check_bbox_params(res, case, artist, spec['bbox']) and good
+            good = check_bbox_params(res, case, artist, spec['bbox'], origin if form == 'plot' else (0.0, 0.0)) and good
         sig = (cls, n_in > 0, n_out > 0)
     elif kind == 'point':
         good = check_point(res, case, artist, spec, origin)
@@ -760,7 +783,10 @@ def check_state(res, spec, origin, full, ndir):
     else:
         res.nontriv(('state', spec, list(origin)))
     VIS, KW = _matrix(cls)
-    forms = ORIGIN_FORMS if kind != 'bbox' else ['tuple']
+    # 'plot': the artist as returned by plot(origin=..., ax=...) on an Axes of a figure without a GUI
+    forms = ORIGIN_FORMS + ['plot'] if kind != 'bbox' else (['tuple', 'plot'] if tuple(origin) == (0.0, 0.0) else ['plot'])
+    if kind == 'bbox' and not (spec['bbox'][1] > spec['bbox'][0] and spec['bbox'][3] > spec['bbox'][2]):
+        forms = ['tuple']         # an empty box has no rectangle region to plot
     for form in forms:
         res.axis('origin_form', form)
         check_call(res, spec, origin, form, 'empty', {}, 'none', {}, ndir, Q)
@@ -796,6 +822,10 @@ def shards(tier, seed):
             cases.append([spec, list(o), bool(full)])
     for spec in bbox_configs():
         cases.append([spec, [0.0, 0.0], True])
+        b = spec['bbox']
+        if b[1] > b[0] and b[3] > b[2]:
+            for o in origins[1:]:
+                cases.append([spec, list(o), False])        # drawn through plot(origin=...), the only route with an origin
     return chunks(cases, 64 if tier == 'quick' else 256)
 
 
